@@ -104,6 +104,7 @@ type Meta struct {
 	Replays        []interface{}          `json:"replays"` // per case replay record (index aligned)
 	Extra          map[string]interface{} `json:"extra,omitempty"`
 	Shards         []string               `json:"shards"`
+	PerFile        int                    `json:"per_file"`
 }
 
 type CaseSink struct {
@@ -113,11 +114,12 @@ type CaseSink struct {
 	meta    Meta
 	seen    map[string]bool
 	perFile int
+	scope   string
 }
 
 func NewSink(dir, prop, tie string, seed int64) *CaseSink {
 	os.MkdirAll(dir, 0755)
-	return &CaseSink{dir: dir, tie: tie, seen: map[string]bool{}, perFile: 400,
+	return &CaseSink{dir: dir, tie: tie, seen: map[string]bool{}, perFile: 400, scope: "N_scope",
 		meta: Meta{Property: prop, Seed: seed, Distribution: map[string]int{}}}
 }
 
@@ -169,7 +171,7 @@ func (s *CaseSink) Flush() error {
 		name := fmt.Sprintf("cases_%d.v", shard)
 		var sb strings.Builder
 		sb.WriteString("From NV Require Import Base.Bytes Base.TieBase " + s.tie + ".\n")
-		sb.WriteString("Open Scope N_scope.\n")
+		sb.WriteString("Open Scope " + s.scope + ".\n")
 		fmt.Fprintf(&sb, "Definition base : nat := %d%%nat.\n", i)
 		sb.WriteString("Definition cases : list case := [\n")
 		for k := i; k < j; k++ {
@@ -191,6 +193,7 @@ func (s *CaseSink) Flush() error {
 			break
 		}
 	}
+	s.meta.PerFile = s.perFile
 	bs, err := json.Marshal(&s.meta)
 	if err != nil {
 		return err
